@@ -725,7 +725,10 @@ class Resolver:
             extract_dir = self.dirname
         try:
             shutil.unpack_archive(path, extract_dir)
-        except OSError as e:
+        except Exception as e:
+            # Do not leave a half-unpacked directory behind: the next run
+            # would find its meson.build and use it.
+            windows_proof_rmtree(self.dirname)
             raise WrapException(f'failed to unpack archive with error: {str(e)}') from e
 
     def _get_git(self, packagename: str) -> None:
